@@ -7,6 +7,7 @@
 package xds
 
 import (
+	core "github.com/envoyproxy/go-control-plane/envoy/config/core/v3"
 	discovery "github.com/envoyproxy/go-control-plane/envoy/service/discovery/v3"
 
 	"istio.io/istio/pilot/pkg/model"
@@ -58,4 +59,21 @@ func VerifC06ConfigDumpTypes(s *DiscoveryServer, con *Connection, types []string
 // VerifC06PushConnectionDelta exposes pushConnectionDelta.
 func VerifC06PushConnectionDelta(s *DiscoveryServer, con *Connection, req *model.PushRequest) error {
 	return s.pushConnectionDelta(con, &Event{pushRequest: req, done: func() {}})
+}
+
+// VerifC06InitConnection runs the real initConnection (initProxyMetadata, LastPushContext assignment, addCon,
+// initializeProxy) for a bare connection and then unregisters it again, so that the harness - not the server's push
+// workers - decides when a queued push reaches the connection. Returns the proxy initConnection built.
+func VerifC06InitConnection(s *DiscoveryServer, node *core.Node, delta bool, sotw DiscoveryStream, dstream DeltaDiscoveryStream) (*Connection, *model.Proxy, error) {
+	var con *Connection
+	if delta {
+		con = newDeltaConnection("verif-c06", dstream)
+	} else {
+		con = newConnection("verif-c06", sotw)
+	}
+	if err := s.initConnection(node, con, nil); err != nil {
+		return nil, nil, err
+	}
+	s.removeCon(con.ID())
+	return con, con.proxy, nil
 }
